@@ -287,7 +287,7 @@ class Server(Acceptor):
                               wl=self.wl,
                               tymeout=self.tymeout)
             if ca in self.ixes and self.ixes[ca] is not remoter:
-                self.shutdownIx(ca)
+                self.closeIx(ca)  # replaced, shutdown and close else close() never reaches it
             self.ixes[ca] = remoter
 
 
